@@ -111,10 +111,14 @@ class Builder:
             a = self.m(auth, "auth")
             cmds.append(b"AUTH TLS")
             reps.append(a)
-            self.cur.append(reaction([a], starttls=(auth < 400), tls_ok=tls_ok))
+            client_rejects = (self.cfg["verify"] == "unknown")
+            rx = reaction([a], starttls=(auth < 400), tls_ok=tls_ok)
+            if client_rejects:
+                rx["model_tls_ok"] = False          # the peer does its part; the client refuses the certificate
+            self.cur.append(rx)
             if auth >= 400:
                 ok = False
-            elif not tls_ok:
+            elif not tls_ok or client_rejects:
                 ok, throws = False, True
             else:
                 secured = True
@@ -133,12 +137,23 @@ class Builder:
         self.cur += reacts
         return self.add_call(("L", user, pw), cmds=cmds, replies=reps)
 
-    def simple(self, verb, arg, code=None, multi=False):
+    def simple(self, verb, arg, code=None, multi=False, extra=None, close_after=False, reset_after=False):
+        """extra: replies written together with the answer although nothing asked for them (left unread);
+        close_after: the peer closes the control connection after answering; code 421 ends the session"""
         code = code if code is not None else self.rng.choice([200, 250, 257, 213, 211, 214, 215, 350, 331, 450, 500, 502, 550])
         rp = self.m(code, verb.decode().lower(), multi)
-        self.cur.append(reaction([rp]))
+        now = [rp] + [self.m(c, "unsolicited") for c in (extra or [])]
+        self.cur.append(reaction(now, close_after=(close_after or code == 421 or reset_after), reset_after=reset_after))
         line = verb + (b" " + arg if arg is not None else b"")
-        return self.add_call(("S", verb, arg), cmds=[line], replies=[rp])
+        if code == 421:
+            self.connected = False
+            self.secured = False
+        return self.add_call(("S", verb, arg), cmds=[line], replies=[rp], open_after=self.connected,
+                             may_throw=(code == 421 and self.tls))
+
+    def failing(self, call, **kw):
+        """a call that must end in ftp_exception (dead peer, closed socket)"""
+        return self.add_call(call, throws=True, cmds=kw.pop("cmds", []), **kw)
 
     def set_type(self, t, code=200):
         rp = self.m(code, "type")
@@ -160,7 +175,7 @@ class Builder:
 
     def logout(self, codes=(220,)):
         reps = [self.m(c, "rein") for c in codes]
-        self.cur.append(reaction(reps))
+        self.cur.append(reaction(reps, stoptls=(self.secured and codes[-1] < 400)))
         was_sec = self.secured
         if codes[-1] < 400:
             self.secured = False
@@ -200,7 +215,7 @@ class Builder:
 
     def transfer(self, kind, path, payload_segs=(), chunks=(), cb=None, setup_code=None, cmd_code=150, done_code=226,
                  refuse_at=None, refuse_code=550, names=False, upverb="S", fail_at=None, end="E", data_tls_ok=True,
-                 completion="now", listen="open", abor=None, finish_first=False):
+                 completion="now", listen="open", abor=None, finish_first=False, data_fault=None):
         """kind: 'D' download, 'U' upload, 'F' listing.
         refuse_at: None | 'setup' | 'cmd'.  abor: None | dict(first=426|226|..., second=226) when the callback cancels."""
         verb = {"D": b"RETR", "F": (b"NLST" if names else b"LIST"),
@@ -226,7 +241,9 @@ class Builder:
             self.cur.append(sr)
             cmds.append(setup)
             reps.append(sr["now"][0])
-            if refuse_at == "cmd":
+            if listen == "dead" and self.mode == "P":
+                pass                    # nobody listens at the announced port: the call fails at the data connect
+            elif refuse_at == "cmd":
                 rp = self.m(refuse_code, "refused")
                 self.cur.append(reaction([rp], data=dict(dir="hold", mode=("active" if self.mode == "A" else "passive"),
                                                          reachable=False) if self.mode == "P" else None))
@@ -239,6 +256,12 @@ class Builder:
                 data = dict(dir=ddir, mode=("active" if self.mode == "A" else "passive"), tls=self.tls, tls_ok=data_tls_ok,
                             segs=list(payload_segs), end=end, reachable=True)
                 cancelled = abor is not None
+                if data_fault == "handshake":
+                    data["tls_ok"] = False
+                elif data_fault == "truncate":
+                    data["end"] = "X"
+                elif data_fault == "unreachable-passive":
+                    pass
                 if cancelled:
                     if finish_first:
                         # the peer had completed the transfer before it read ABOR
@@ -275,5 +298,11 @@ class Builder:
         else:
             call = ("F", path, names)
         self.cfg_type_at[ci] = self.type
-        return self.add_call(call, cmds=cmds, replies=reps, moves_data=moves, refused=(refuse_at is not None),
-                             payload=b"".join(payload_segs), source=b"".join(chunks), cancelled=(abor is not None))
+        faulty = (data_fault in ("handshake",) and self.tls and refuse_at is None) or \
+                 (data_fault == "truncate" and self.tls and refuse_at is None and kind != "U") or \
+                 (listen == "dead" and self.mode == "P" and refuse_at != "setup")
+        if listen == "dead" and self.mode == "P" and refuse_at != "setup":
+            cmds = cmds[:1]            # the data connection cannot be opened: the transfer command is never sent
+        return self.add_call(call, cmds=cmds, replies=reps, moves_data=moves and not faulty, refused=(refuse_at is not None),
+                             payload=b"".join(payload_segs), source=b"".join(chunks), cancelled=(abor is not None),
+                             throws=faulty)
